@@ -110,7 +110,10 @@ class TriangularLinearOperator(LinearOperator, _TriangularLinearOperatorBase):
     def _mul_constant(
         self: Float[LinearOperator, "*batch M N"], other: Union[float, torch.Tensor]
     ) -> Float[LinearOperator, "*batch M N"]:
-        return self.__class__(self._tensor * other.unsqueeze(-1), upper=self.upper)
+        # A batch of constants has to broadcast against both matrix dimensions
+        if other.dim():
+            other = other.unsqueeze(-1).unsqueeze(-1)
+        return self.__class__(self._tensor * other, upper=self.upper)
 
     def _root_decomposition(
         self: Float[LinearOperator, "... N N"]
